@@ -318,10 +318,9 @@ pub fn model(frames: &[F]) -> ModelOut {
                     coll.remove(&ch);
                 }
                 F::ChanCloseOk { .. } => {
+                    // a CloseOk nobody asked for (the client never closes a channel in these
+                    // sessions): it answers nothing and changes nothing
                     out.lenient = true;
-                    open.remove(&ch);
-                    consumers.remove(&ch);
-                    coll.remove(&ch);
                 }
                 F::Reply { .. } => out.lenient = true,
                 _ => {}
